@@ -16,7 +16,7 @@ type Mutant struct {
 	File    string `json:"file"` // relative to the repo
 	Old     string `json:"old"`
 	New     string `json:"new"`
-	Expect  string `json:"expect"`  // regexp over failing obligation names; "" = must keep verifying (harmless-edit canary)
+	Expect  string `json:"expect"` // regexp over failing obligation names; "" = must keep verifying (harmless-edit canary)
 	Comment string `json:"comment"`
 }
 
